@@ -29,3 +29,19 @@ func (r *RockDB) VerifScanAll(f func(k, v []byte)) error {
 func (r *RockDB) VerifIsBatching() bool {
 	return atomic.LoadInt32(&r.isBatching) == 1
 }
+
+// VerifValidExpireTick runs one iteration of the body of localExpiration.applyExpiration
+// (TTLChecker.check into a local batched buffer, then commit of the buffer) in the calling
+// goroutine, as the background goroutine of the local_deletion policy does every 5 minutes.
+func (r *RockDB) VerifValidExpireTick() (int, error) {
+	e, ok := r.expiration.(*localExpiration)
+	if !ok {
+		return 0, nil
+	}
+	buf := newLocalBatchedBuffer(r, localBatchedBufSize)
+	defer buf.Destroy()
+	err := e.TTLChecker.check(buf, make(chan struct{}))
+	n := len(buf.buff)
+	buf.commit()
+	return n, err
+}
